@@ -125,6 +125,20 @@ struct A32([u8; 32]);
 #[repr(align(64))]
 struct Z64;
 
+thread_local! {
+    static EDROPS: std::cell::Cell<u32> = std::cell::Cell::new(0);
+}
+/// an error value with a destructor (C11: delivered exactly once)
+struct ETok {
+    id: u64,
+    pad: [u64; 3],
+}
+impl Drop for ETok {
+    fn drop(&mut self) {
+        EDROPS.with(|d| d.set(d.get() + 1));
+    }
+}
+
 /// a value type without padding whose bytes we can predict
 trait Pat: Copy + 'static {
     fn from_bytes(b: &[u8]) -> Self;
@@ -900,6 +914,118 @@ impl<const M: usize> Drv<M> {
         }
     }
 
+    /// the same with an error type that has a destructor: it must run exactly once, in the caller's hands
+    fn op_try_with_droppable_error(&mut self, depth: u32) {
+        let fallible = self.rng.chance(1, 2);
+        let ok = self.rng.chance(1, 3);
+        let nested = depth == 0 && self.rng.chance(1, 8);
+        {
+                let lay = Layout::new::<Result<u64, ETok>>();
+                let desc = format!("twbegin {} {} {}", lay.size(), lay.align(), fallible as u8);
+                self.begin(&desc);
+                let tbytes = pattern(&mut self.rng, std::mem::size_of::<u64>());
+                let eid = self.rng.next() | 1;
+                let tv = <u64 as Pat>::from_bytes(&tbytes);
+                EDROPS.with(|d| d.set(0));
+                let ev = ETok { id: eid, pad: [eid ^ 0x77; 3] };
+                // the arena is used re-entrantly from the closure through a raw pointer
+                let me: *mut Self = self;
+                let bump: *const Bump<M> = self.bump.as_ref().unwrap();
+                let mut entered = false;
+                let mut p_at_entry = 0usize;
+                let mut inner_ops = 0usize;
+                let f = || -> Result<u64, ETok> {
+                    track::paused(|| {
+                        let me = unsafe { &mut *me };
+                        entered = true;
+                        p_at_entry = unsafe { (*bump).iter_allocated_chunks_raw().next().map(|(p, _)| p as usize).unwrap_or(0) };
+                        me.end(&desc, &Res::Entered(p_at_entry));
+                    });
+                    {
+                        let me = unsafe { &mut *me };
+                        track::paused(|| ());
+                        let was = track::set_active(false);
+                        let before = me.nops;
+                        if me.uniform == 0 {
+                            me.inner_actions();
+                        }
+                        if nested && me.uniform == 0 {
+                            me.op_try_with(depth + 1);
+                        }
+                        inner_ops = me.nops - before;
+                        me.begin(&format!("twend {}", ok as u8));
+                        track::set_active(was);
+                    }
+                    if ok { Ok(tv) } else { Err(ev) }
+                };
+                let r = guarded(|| unsafe {
+                    if fallible {
+                        match (*bump).try_alloc_try_with(f) {
+                            Ok(r) => Ok(r as *mut u64 as usize),
+                            Err(bumpalo::AllocOrInitError::Alloc(_)) => Err(None),
+                            Err(bumpalo::AllocOrInitError::Init(e)) => Err(Some(e)),
+                        }
+                    } else {
+                        match (*bump).alloc_try_with(f) {
+                            Ok(r) => Ok(r as *mut u64 as usize),
+                            Err(e) => Err(Some(e)),
+                        }
+                    }
+                });
+                let desc2 = format!("twend {}", ok as u8);
+                match r {
+                    Ok(Ok(a)) => {
+                        // the whole Result slot stays allocated; only T's bytes are known
+                        let off = a - p_at_entry;
+                        let mut exp = unsafe { read_bytes(p_at_entry, lay.size()) };
+                        exp[off..off + tbytes.len()].copy_from_slice(&tbytes);
+                        self.blks.push(Blk { addr: p_at_entry, size: lay.size(), align: lay.align(), exp, live: true });
+                        if !ok { self.line("K bad twend returned Ok for a failing initialiser"); }
+                        self.end(&desc2, &Res::Ok(a));
+                    }
+                    Ok(Err(Some(e))) => {
+                        // C11: the error is delivered exactly once: not dropped inside the arena, not duplicated
+                        let dropped_inside = EDROPS.with(|d| d.get());
+                        let intact = e.id == eid && e.pad == [eid ^ 0x77; 3];
+                        drop(e);
+                        let dropped_total = EDROPS.with(|d| d.get());
+                        if dropped_inside != 0 || dropped_total != 1 || !intact || ok {
+                            self.line(&format!("K bad error value delivery: dropped before return {} times, in total {} times, intact {}", dropped_inside, dropped_total, intact));
+                        }
+                        self.end(&desc2, &Res::Err);
+                        if inner_ops == 0 && depth == 0 {
+                            // C11: the initialiser allocated nothing, so the same layout must now be
+                            // served without asking the global allocator
+                            let d = format!("alloc {} {} 1 probe_c11", lay.size(), lay.align());
+                            self.begin(&d);
+                            let b = self.bump.as_ref().unwrap();
+                            let r = guarded(|| b.try_alloc_layout(lay).map(|p| p.as_ptr() as usize).map_err(|_| ()));
+                            let out = match r {
+                                Ok(Ok(a)) => {
+                                    let exp = pattern(&mut self.rng, lay.size());
+                                    unsafe { write_bytes(a, &exp) };
+                                    Ok((a, lay.size(), lay.align(), exp))
+                                }
+                                Ok(Err(())) => Err(Res::Err),
+                                Err(p) => Err(p),
+                            };
+                            self.record_alloc(&d, out);
+                        }
+                    }
+                    Ok(Err(None)) => {
+                        if entered { self.line("K bad allocation error after the initialiser ran"); }
+                        self.end(&desc, &Res::Err);
+                    }
+                    Err(p) => {
+                        if entered { self.end(&desc2, &p); } else { self.end(&desc, &p); }
+                    }
+                }
+        }
+        if ok {
+            // an Ok value leaves the unused error with the initialiser closure: dropped there, once
+        }
+    }
+
     /// a zero-sized Result slot: Result<Infallible, ()> can only be Err
     fn op_try_with_zst(&mut self, fallible: bool) {
         use std::convert::Infallible;
@@ -1201,7 +1327,7 @@ fn run_history<const M: usize>(plan: &Plan) {
         } else if r < 88 {
             d.op_setlimit();
         } else if r < 94 {
-            d.op_try_with(0);
+            if d.rng.chance(1, 3) { d.op_try_with_droppable_error(0) } else { d.op_try_with(0) }
         } else if r < 96 {
             d.op_probe_capacity();
         } else {
@@ -1231,7 +1357,7 @@ fn run_history<const M: usize>(plan: &Plan) {
 // that does not depend on addresses must be identical.  Requests are aligned to 16 at most,
 // so the behaviour does not depend on where the system allocator places the chunks.
 fn noise(rng: &mut Rng, others: &mut Vec<Bump>) {
-    match rng.below(7) {
+    match rng.below(8) {
         0 => {
             let b = Bump::new();
             b.set_allocation_limit(Some(*rng.pick(&[0usize, 100, 4096, 10000])));
@@ -1289,12 +1415,29 @@ fn noise(rng: &mut Rng, others: &mut Vec<Bump>) {
             .join()
             .unwrap();
         }
+        6 => {
+            // the shared call sites of the collections, with long and short arguments
+            let b = Bump::new();
+            let _ = fmt_site(&b, *rng.pick(&[0usize, 3, 500, 100000]), rng.next() % 100);
+            others.push(b);
+        }
         _ => {
             for b in others.iter() {
                 let _ = b.try_alloc_layout(Layout::from_size_align(1 + rng.usize_below(5000), 16).unwrap());
             }
         }
     }
+}
+
+/// one call site shared by every arena of the process (C20: nothing it does for one arena may
+/// depend on what it did for another)
+fn fmt_site(b: &Bump, label_len: usize, n: u64) -> (usize, usize) {
+    let label: String = std::iter::repeat('x').take(label_len).collect();
+    let s = bumpalo::format!(in b, "{}-{}", label, n);
+    let mut v = bumpalo::collections::Vec::new_in(b);
+    for i in 0..(n % 7) { v.push(i); }
+    let t = bumpalo::collections::String::from_str_in(&label, b);
+    (s.capacity() + 1000 * v.capacity() + 1_000_000 * t.capacity(), s.len())
 }
 
 fn iso_one<const M: usize>(seed: u64, hid: u64, with_noise: bool) {
@@ -1332,9 +1475,17 @@ fn iso_one<const M: usize>(seed: u64, hid: u64, with_noise: bool) {
             let l = if rng.chance(1, 3) { None } else { Some(rng.usize_below(200000)) };
             y.set_allocation_limit(l);
             (format!("limit {:?}", l), "unit".into())
-        } else {
+        } else if r < 95 || M != 1 {
             let ok = track::recorded(|| y.try_alloc_try_with(|| if rng.chance(1, 2) { Ok(7u64) } else { Err(()) }).is_ok());
             ("try_with".into(), if ok { "ok".into() } else { "err".into() })
+        } else {
+            // the collections' shared call sites on this arena (no limit may be in the way: it panics on OOM)
+            y.set_allocation_limit(None);
+            let ll = rng.usize_below(40);
+            let n = rng.next() % 100;
+            let yb: &Bump = unsafe { &*(&y as *const Bump<M> as *const Bump) };
+            let (caps, len) = track::recorded(|| fmt_site(yb, ll, n));
+            (format!("fmt_site {} {}", ll, n), format!("caps={} len={}", caps, len))
         };
         let ev = track::events(mark, track::log_len());
         mark = track::log_len();
